@@ -351,6 +351,17 @@ func (m *model) plan(spec *ModSpec, name string) *plan {
 	return p
 }
 
+// escapedToGlobal reports whether an imported funcref global of the (failed) instance holds a
+// reference to one of the instance's own functions (class of finding findDangle).
+func (in *mInst) escapedToGlobal() bool {
+	for i := 0; i < in.v.nIG && i < len(in.globals); i++ {
+		if g := in.globals[i]; g.vt == wasmenc.FuncRef && g.fn != nil && g.fn.f.def == in {
+			return true
+		}
+	}
+	return false
+}
+
 // reject records an instantiation that failed before anything was written (link failure).
 func (m *model) reject() {
 	if m.okInst > 0 {
@@ -460,6 +471,13 @@ func (m *model) runOps(in *mInst, ops []Op) string {
 			}
 			t.fn[uint32(o.B)] = in.ftab[uint32(o.C)]
 			t.lastW = in.name
+		case "gsetf":
+			if uint64(uint32(o.C)) >= uint64(len(in.ftab)) {
+				return trapTable
+			}
+			g := in.globals[o.A]
+			g.fn = in.ftab[uint32(o.C)]
+			g.lastW = in.name
 		case "call":
 			if _, tr := m.callFunc(in.funcs[o.A]); tr != "" {
 				return tr
